@@ -50,13 +50,18 @@ def refusal (t : Tables) (r : Refusal) : Resp :=
 /-- `process_request` of one middleware: `some r` = the request is refused here -/
 def stage (t : Tables) (m : Mw) (rq : Req) : Option Resp :=
   match m with
-  | .sizeCap => if rq.size = .oversize then some (refusal t t.sizeCap) else none
+  | .sizeCap =>
+    match rq.size with
+    | .oversize => some (refusal t t.sizeCap)
+    | .atCap => if t.wireSizeOp.refusesAtCap then some (refusal t t.sizeCap) else none
+    | .within => none
   | .compression =>
     match rq.cenc with
     | .none | .supported => none
     | .unsupported => some (refusal t t.encUnsupported)
     | .corrupt => some (refusal t t.encCorrupt)
     | .bomb => some (refusal t t.encBomb)
+    | .atCap c => if (t.decodeSizeOp c).refusesAtCap then some (refusal t t.encBomb) else none
   | .auth => if rq.auth = .rejected then some (refusal t t.authReject) else none
   | .other => none
 
